@@ -71,6 +71,8 @@ type Tokenizer struct {
 	keyWord          map[string]bool
 	comfortEnabled   bool
 	inLiteral        bool
+	lastSkipComment  bool
+	lastStr          string
 }
 
 type Matcher func(r rune) (func(r rune) bool, bool)
@@ -342,7 +344,14 @@ func (t *Tokenizer) parseOperator() (string, bool) {
 
 func (t *Tokenizer) peek(skipComment bool) rune {
 	if t.isLast {
-		return t.last
+		if skipComment && !t.lastSkipComment && t.allowComments {
+			// The buffered character was read without looking for a comment (e.g.
+			// behind an operator), read it again: it may be the start of a comment.
+			t.str = t.lastStr
+			t.isLast = false
+		} else {
+			return t.last
+		}
 	}
 	if len(t.str) == 0 {
 		t.last = EOF
@@ -414,6 +423,8 @@ func (t *Tokenizer) peek(skipComment bool) rune {
 	}
 
 	t.isLast = true
+	t.lastSkipComment = skipComment
+	t.lastStr = t.str
 	t.str = t.str[size:]
 	return t.last
 }
